@@ -50,6 +50,13 @@ class Journey(O.Monitor):
                     self.objs[ind.id_number] = ind
         ex = Q.nodes[-1].all_individuals
         for ind in ex[self.exit_len:]:
+            old = self.sig.get(ind.id_number)
+            mov = [r for r in ind.data_records if moving(r)]
+            if old is not None and old[1] is not None and len(mov) - old[1] > 1:
+                # reached the exit through several hops within this one event (re-routed on, pre-empted there and re-routed out): the
+                # intermediate stops are taken from the records
+                for r in mov[old[1]:len(mov) - 1]:
+                    self.visits.setdefault(ind.id_number, []).append((r.destination, t))
             self.at_exit[ind.id_number] = t
             self.objs[ind.id_number] = ind
             self.sig[ind.id_number] = (-1, None)
